@@ -49,6 +49,12 @@ func (t *flightTable) end(client int) { t.endWith(client, nil, nil) }
 // isTimeoutClass: the server gave up waiting for the apply result; the entry
 // is still in the raft log and is (or will be) applied.
 func isTimeoutClass(msg string) bool {
+	// the server appends "... : ERR handle command <name>, <key echo>": client bytes do not count
+	for _, sep := range []string{" : ERR handle command", " : Err handle command"} {
+		if i := strings.Index(msg, sep); i >= 0 {
+			msg = msg[:i]
+		}
+	}
 	return strings.Contains(msg, "deadline exceeded") || strings.Contains(msg, "raft proposal") || strings.Contains(msg, "timeout")
 }
 
